@@ -151,46 +151,51 @@ func c09CoqOptN(b *uint64) string {
 	}
 	return "(Some " + c09CoqN(*b) + ")"
 }
-func c09CoqDims(ds []c09ADim) string {
+func c09CoqDims(ds []c09ADim) string { return c09CoqDimsIn("", ds) }
+
+// c09CoqDimsIn / c09CoqAstIn: the constructors of Spec/SelectorSpec.v written with the qualifier m ("" where the module is
+// imported, "SelectorSpec." in the engine case files, where it is not: qast.go From kind "sel")
+func c09CoqDimsIn(m string, ds []c09ADim) string {
 	items := make([]string, len(ds))
 	for i, d := range ds {
 		switch d.K {
 		case "each":
-			items[i] = "DEach"
+			items[i] = m + "DEach"
 		case "at":
-			items[i] = "DAt " + c09CoqN(d.N)
+			items[i] = m + "DAt " + c09CoqN(d.N)
 		default:
-			items[i] = "DRange " + c09CoqOptN(d.B) + " " + c09CoqOptN(d.E)
+			items[i] = m + "DRange " + c09CoqOptN(d.B) + " " + c09CoqOptN(d.E)
 		}
 	}
 	return coqList(items)
 }
-func c09CoqAst(a []c09ASeg) string {
+func c09CoqAst(a []c09ASeg) string { return c09CoqAstIn("", a) }
+func c09CoqAstIn(m string, a []c09ASeg) string {
 	segs := make([]string, len(a))
 	for i, g := range a {
 		steps := make([]string, len(g.Steps))
 		for j, st := range g.Steps {
 			switch st.Kind {
 			case "key":
-				steps[j] = "Key " + coqStr(st.Key)
+				steps[j] = m + "Key " + coqStr(st.Key)
 			case "index":
-				steps[j] = "Index " + c09CoqDims(st.Dims)
+				steps[j] = m + "Index " + c09CoqDimsIn(m, st.Dims)
 			case "keep":
-				steps[j] = "Keep " + c09CoqDims(st.Dims)
+				steps[j] = m + "Keep " + c09CoqDimsIn(m, st.Dims)
 			default:
 				ps := make([]string, len(st.Pipes))
 				for k, p := range st.Pipes {
 					t := map[string]string{"none": "PNone", "string": "PString", "number": "PNumber"}[p.T]
-					ps[k] = "(" + coqStr(p.K) + ", " + t + ")"
+					ps[k] = "(" + coqStr(p.K) + ", " + m + t + ")"
 				}
-				steps[j] = "Pipe " + coqList(ps)
+				steps[j] = m + "Pipe " + coqList(ps)
 			}
 		}
 		fn := "None"
 		if g.Fn != nil {
 			fn = "(Some " + coqStr(*g.Fn) + ")"
 		}
-		segs[i] = "Fn " + fn + " " + coqList(steps)
+		segs[i] = m + "Fn " + fn + " " + coqList(steps)
 	}
 	return coqList(segs)
 }
